@@ -15,9 +15,12 @@ SDq == {ShDq(a) : a \in Acc}
 SE == {ShE(a) : a \in Acc}
 SEk == {ShEk(a) : a \in Acc}
 SH == {ShH(a) : a \in Acc}
+SKz == {ShKz(a) : a \in Acc}
+SExk == {ShExk(a) : a \in Acc}
 Views2 == {v \in {<<x>> : x \in Shapes1}
                  \cup Pairs(SA, SF) \cup Pairs(SC, SCk) \cup Pairs(SCk, SC) \cup Pairs(SD, SDq) \cup Pairs(SDq, SD)
-                 \cup Pairs(SD, SH) \cup Pairs(SE, SEk) \cup Pairs(SEk, SE) \cup Pairs(SDq, SH) : ValidView(v)}
+                 \cup Pairs(SD, SH) \cup Pairs(SE, SEk) \cup Pairs(SEk, SE) \cup Pairs(SDq, SH)
+                 \cup Pairs(SKz, SEk) \cup Pairs(SKz, SExk) \cup Pairs(SEk, SExk) \cup Pairs(SExk, SEk) : ValidView(v)}
 Views3 == {v \in {Append(w, x) : w \in ViewsQuick, x \in Shapes1} : ValidView(v)}
 
 
